@@ -27,12 +27,12 @@ StmtItem(names) == [k |-> "layer", path |-> <<>>, decls |-> <<>>, names |-> name
 Wraps == << <<>>, <<PLayer(<<"a">>)>>, <<PLayer(<<"b">>)>>, <<PCond("media", [r |-> "media", qs |-> <<Q1("w100", 1)>>])>>,
             <<PLayer(<<"a">>), PCond("media", [r |-> "media", qs |-> <<Q1("w100", 3)>>])>>, <<PLayer(<<>>)>>,
             <<PLayer(<<"a", "b">>)>> >>
-CSels == <<".a", "p", "p.a", ":where(.a,#s)">>
-CDecls == << D1("color", "red", 1, FALSE), D1("color", "blue", 1, TRUE), D1("color", "red", 10, FALSE), D1("color", "blue", 1, FALSE) >>
+CSels == <<".a", ":where(.a,#s)", "p", "p.a">>
+CDecls == << D1("color", "red", 1, FALSE), D1("color", "blue", 1, TRUE), D1("color", "blue", 1, FALSE), D1("color", "red", 10, FALSE) >>
 CStmts == << <<>>, <<StmtItem(<< <<"b">>, <<"a">> >>)>>, <<StmtItem(<< <<"a", "b">> >>)>> >>
 
-NW == IF Small THEN 4 ELSE Len(Wraps)
-NS == IF Small THEN 2 ELSE Len(CSels)
+NW == IF Small THEN 3 ELSE Len(Wraps)
+NS == IF Small THEN 3 ELSE Len(CSels)
 ND == IF Small THEN 3 ELSE Len(CDecls)
 NSt == IF Small THEN 2 ELSE Len(CStmts)
 CascChoices == {<<"casc", st, w1, s1, d1, w2, s2, d2>> : st \in 1..NSt, w1 \in 1..NW, s1 \in 1..NS, d1 \in 1..ND,
